@@ -9,7 +9,9 @@
    dense b s F    : every window of F+1 consecutive days, in both directions, holds a day that is a
                     business day and a settlement day; F is the bound of every day-by-day search.
    KnownGap j     : j holds a NamedCal document whose name NamedCal::try_new rejects, or is an FXRates
-                    document whose data FXRates::try_new rejects / that lists no currency (F4), or loads
+                    document whose data FXRates::try_new rejects / that lists no currency / whose quotes hold an
+                    ill-shaped Dual or Dual2 (F4; the last one is F5 inside F4: ndarray then aborts in the dual
+                    arithmetic of the reconstruction, which is outside the modelled domain), or loads
                     into a value violating a relation a derived Deserialize does not check (F5:
                     |dual| vs |vars|, dual2 dims, n vs |t|-k, |c| vs n, knot order, node-key order).
    shapeb v       : the full shape invariant of the loaded value (Model/Entry.v). *)
@@ -77,6 +79,25 @@ Theorem C20_load_refuted_shape : forall (T : Type) (H : Num T),
   exists v, from_json_model (doc_dual_short (T:=T)) = Ok v /\ shapeb v = false.
 Proof. exact c20_load_refuted_shape. Qed.
 
+(* ------------------------------------------------------------------ spline solving (partial)
+   csolve (Model/Entry.v, on Model/Spline.v + Model/Linalg.v): the two validations return errors and a
+   returned spline is well formed.  MISSING for the full statement: "never aborts".  It is FALSE on
+   IEEE doubles: a repeated data site makes the collocation matrix singular, the elimination divides
+   0 by 0 and the next pivot search `partial_cmp(..).unwrap()` aborts on NaN — see the witness below,
+   which the harness replays on the real code.  (Over the reals the model cannot abort for that
+   reason; solver correctness under non-singularity is C13 / C15.) *)
+Theorem C20_csolve_partial : forall (T : Type) (H : Num T) (X : Type) (OX : Linalg.Ops X) (xmul : T -> X -> X)
+    (s : pp T X) tau y ln rn lsq,
+  ((List.length tau <> pp_n s /\ (lsq = false \/ (List.length tau <= pp_n s)%nat)) \/ List.length tau <> List.length y ->
+     csolve xmul s tau y ln rn lsq = Err) /\
+  (forall s', csolve xmul s tau y ln rn lsq = Ok s' ->
+     pp_k s' = pp_k s /\ pp_t s' = pp_t s /\ pp_n s' = pp_n s /\ exists c, pp_c s' = Some c).
+Proof. exact (fun T H X OX xmul s tau y ln rn lsq =>
+  conj (csolve_rejects xmul s tau y ln rn lsq) (fun s' => csolve_ok xmul s s' tau y ln rn lsq)). Qed.
+(* the witness: Proofs/CsolveWitness.v `csolve_witness_aborts : csolve_witness = Panic` (k = 1, knots 0..4, sites
+   [0.5; 0.5; 2.5; 3.5]), proved by vm_compute on primitive floats — kept out of this file because
+   Print Assumptions lists the primitive float operations it evaluates *)
+
 Example C20_example :
   (forall (T : Type) (H : Num T),
      from_json_model (T:=T) (JObj [(KStr k_NamedCal, JObj [(KStr k_name, JStr (s2n "tgt"%string))])]) <> Panic) /\
@@ -96,3 +117,4 @@ Print Assumptions C20_named_rebuild_total.
 Print Assumptions C20_load_refuted_named.
 Print Assumptions C20_load_refuted_fx.
 Print Assumptions C20_load_refuted_shape.
+Print Assumptions C20_csolve_partial.
